@@ -619,7 +619,17 @@ def r9_names_reach_their_policy(ctx):
     ctx.floor("hand-written policy copies", k, 3)
 
 
-RULES = [("C15-R1", r1_gate), ("C15-R2", r2_no_shell), ("C15-R3", r3_caps), ("C15-R3b", r3b_refusal_before_spawn), ("C15-R4", r4_nothing_dropped), ("C15-R5", r5_set_env), ("C15-R6", r6_configured_text_outlives_configuration), ("C15-R3c", r3c_totals_compared_after_accumulation), ("C15-R7", r7_index_paths_walk_the_same_way), ("C15-R8", r8_builder_calls_are_effects), ("C15-R9", r9_names_reach_their_policy)]
+def r10_the_argument_is_copied_before_anything_else_runs(ctx):
+    """`exactly the argument strings the script supplied`: the text of `c.arg(x)` is a value read from a variable, i.e. a borrow
+    of the variable's pool slot, until it is copied into the command.  Looking the receiver up evaluates the index
+    expressions of `cmds[pick()]`, which can run code that reassigns x - so the copy has to come first, or the child gets the
+    bytes of whatever string took the slot.  Shared with C02-R6 (no borrowed value is held across a call that can return a
+    slot)."""
+    from .c02 import r6_nothing_borrowed_is_held_across_recycling
+    r6_nothing_borrowed_is_held_across_recycling(ctx)
+
+
+RULES = [("C15-R1", r1_gate), ("C15-R2", r2_no_shell), ("C15-R3", r3_caps), ("C15-R3b", r3b_refusal_before_spawn), ("C15-R4", r4_nothing_dropped), ("C15-R5", r5_set_env), ("C15-R6", r6_configured_text_outlives_configuration), ("C15-R3c", r3c_totals_compared_after_accumulation), ("C15-R7", r7_index_paths_walk_the_same_way), ("C15-R8", r8_builder_calls_are_effects), ("C15-R9", r9_names_reach_their_policy), ("C15-R10", r10_the_argument_is_copied_before_anything_else_runs)]
 
 EXPLANATION = (
     "R1: the platform process runner is invoked only from the `run` arm of the command dispatcher, edge-dominated by "
@@ -640,4 +650,7 @@ TRUSTED = ["rustc nightly MIR and trait resolution", "nsx exporter", "nsverif ex
 NONTRIVIAL = "one obligation per cap, per ProcessSpec/ProcessCommand field and per spawn-path operand; distinct = distinct cap/field/operand"
 EXPLANATION += (
     ' R9: method name -> documented variant (reference/language.json), the dispatcher arm of <Stream><Policy> calls set_<stream>_policy with that policy (or set_<stream>_text), every hand-written copy of a policy (clone_into) yields the same policy, and the platform layer turns each policy into its own Stdio on every path from that arm.'
+)
+EXPLANATION += (
+    " R10 shares C02-R6: the argument text is copied before the receiver's index expressions run."
 )
